@@ -647,6 +647,8 @@ def language_foundation(ctx):
     key_types_compare_structurally(ctx, "C02.n")
     from . import adaptors
     adaptors.analyze(ctx, ("C02.j", "C03.i", "C08.f"))     # no loop of the pipeline drops, truncates or reorders elements
+    from . import error_rules
+    error_rules.analyze(ctx, "C15.i")     # no error of the pipeline is discarded: what must be rejected is rejected
 
 
 
